@@ -28,6 +28,23 @@ theorem key_names_one_stream (s : Streams) (hs : s.store.slab = []) (ops ops' : 
   let r := run_srel (run s ops) ops' (run_keysBelow s ops (keysBelow_empty s hs)) h h'
   ⟨r.key, r.id⟩
 
+/-- **A stream is never released while a handle to it is alive** (no dangling `store::Key` behind a
+    `StreamRef` / `OpaqueStreamRef`: `store.resolve(key)` in a handle method cannot panic).  State with all
+    keys below `nextKey` (every reachable state), an entry `k` with `ref_count > 0`; run ANY history that
+    does not drop a handle of entry `k` (peer frames, resets, errors, GOAWAY, EOF, drops of other handles,
+    connection polls … are all allowed): entry `k` is still in the slab, it is the same stream, and its
+    `ref_count` has not gone down. -/
+theorem referenced_stream_is_never_released (s : Streams) (ops : List Op) (k : Nat) (st : Stream) (hkb : KeysBelow s.store)
+    (h0 : s.store.get? k = some st) (hr : 0 < st.refCount) (hk : Op.dropStreamRef k ∉ ops) :
+    ∃ st', (run s ops).store.get? k = some st' ∧ st.refCount ≤ st'.refCount ∧ st'.id = st.id :=
+  run_keeps_referenced s ops k st hkb h0 hr hk
+
+/-- non-vacuity: a request stream with its two handles survives reset by the peer, a connection error and EOF -/
+example : let s := run {} [.sendRequest false [] false none, .cloneStreamRef 0]
+    ((s.store.get? 0).map (·.refCount) = some 2) ∧
+    (((run s [.pollComplete 10 {} {} "c", .recvReset 1 8, .handleError (.io "BrokenPipe" none), .recvEof true]).store.get? 0).map
+      (·.refCount) = some 2) := by decide
+
 /-- **The queue-draining loops terminate after `queue length` rounds** (`Send::clear_queues`,
     `Recv::clear_queues`: `clear_pending_capacity`, `clear_pending_send`, `clear_pending_open`,
     `clear_stream_window_update_queue`, `clear_all_reset_streams`, `clear_all_pending_accept`).
@@ -74,3 +91,4 @@ end H2V.Props.C08
 #print axioms H2V.Props.C08.clear_queue_loops_terminate
 #print axioms H2V.Props.C08.clear_expired_reset_streams_terminates
 #print axioms H2V.Props.C08.poll_response_terminates
+#print axioms H2V.Props.C08.referenced_stream_is_never_released
